@@ -22,6 +22,7 @@ inductive FinWhy (sys : Sys K T R) (rq : Req K T R) (sh : Shared K V T R) (b : S
       FinWhy sys rq sh b .hs .notFound
   | denied (t : T) : b.pc = .h3 → rq.single = some t → rq.allow t = false →
       FinWhy sys rq sh b .hs .denied
+  | badMode : b.pc = .h4 → rq.mode = .other → FinWhy sys rq sh b .hs .invalid
   | eof : b.status = none → rq.mode = .poll → b.walker = .done → FinWhy sys rq sh b .eof .ok
   | drained : b.snd = .idle → b.q = [] → b.closed = true → FinWhy sys rq sh b .drained .ok
   | dropEnd (i : Item K R) (d : Nat) (r : Resp K V R) (t : T) : b.snd = .got i d →
@@ -40,7 +41,7 @@ inductive SubStep (sys : Sys K T R) (rq : Req K T R) (sh : Shared K V T R) (b : 
       SubStep sys rq sh b .hs { b with pc := .h3 }
   | h3 : b.pc = .h3 → (∀ t, rq.single = some t → rq.allow t = true) →
       SubStep sys rq sh b .hs { b with pc := .h4 }
-  | h4poll : b.pc = .h4 → rq.mode ≠ .stream → SubStep sys rq sh b .hs { b with pc := .spawn }
+  | h4poll : b.pc = .h4 → rq.mode ≠ .stream → rq.mode ≠ .other → SubStep sys rq sh b .hs { b with pc := .spawn }
   | h4stream : b.pc = .h4 → rq.mode = .stream → rq.updatesOnly = false →
       SubStep sys rq sh b .hs { b with pc := if sys.swap then .spawn else .reg }
   | h4sync : b.pc = .h4 → rq.mode = .stream → rq.updatesOnly = true →
@@ -75,7 +76,7 @@ inductive SubStep (sys : Sys K T R) (rq : Req K T R) (sh : Shared K V T R) (b : 
       b.q = (i, d) :: rest →
       SubStep sys rq sh b .next { b with q := rest, snd := .got i d, deliv := b.deliv ++ [(i, d)] }
   | buildSync (i : Item K R) (d : Nat) : b.snd = .got i d → mkResp sys sh d i = none →
-      SubStep sys rq sh b .build { b with snd := .sendSync }
+      SubStep sys rq sh b .build { b with snd := .sendSync, armed := true }
   | buildArm (i : Item K R) (d : Nat) (r : Resp K V R) (t : T) : b.snd = .got i d →
       mkResp sys sh d i = some (r, t) → rq.allow t = true →
       SubStep sys rq sh b .build { b with snd := .sending r, armed := true }
@@ -83,7 +84,7 @@ inductive SubStep (sys : Sys K T R) (rq : Req K T R) (sh : Shared K V T R) (b : 
       mkResp sys sh d i = some (r, t) → rq.allow t = false → endsStream sys rq i = false →
       SubStep sys rq sh b .build { b with snd := .idle }
   | sentSync : b.blocked = false → b.snd = .sendSync →
-      SubStep sys rq sh b .sent { b with snd := .idle, sent := b.sent ++ [.sync] }
+      SubStep sys rq sh b .sent { b with snd := .idle, armed := false, sent := b.sent ++ [.sync] }
   | sentResp (r : Resp K V R) : b.blocked = false → b.snd = .sending r →
       endsStreamR sys rq r = false →
       SubStep sys rq sh b .sent { b with snd := .idle, armed := false, sent := b.sent ++ [r] }
@@ -136,8 +137,9 @@ theorem hFire_step {sys : Sys K T R} {rq : Req K T R} {sh : Shared K V T R} {b b
       · simp only [hu, if_true]; exact .h4sync hpc hm hu
       · have hu' : rq.updatesOnly = false := by simpa using hu
         simp only [hu']; exact .h4stream hpc hm hu'
-    | once => exact .h4poll hpc (by rw [hm]; intro h; cases h)
-    | poll => exact .h4poll hpc (by rw [hm]; intro h; cases h)
+    | once => exact .h4poll hpc (by rw [hm]; intro h; cases h) (by rw [hm]; intro h; cases h)
+    | poll => exact .h4poll hpc (by rw [hm]; intro h; cases h) (by rw [hm]; intro h; cases h)
+    | other => exact .fin _ _ (.badMode hpc hm)
   · next hpc =>
     split at h
     · cases h
